@@ -1,5 +1,6 @@
 (* C06 - Formatting yields a specification-valid empty volume for every accepted request.
-   Property theorems only: each is closed by [exact] of a lemma proved in Proofs/FormatProofs.v.
+   Property theorems only: each is closed by [exact] of a lemma proved in Proofs/FormatProofs.v (part 1),
+   Proofs/FormatImageProofs.v and Proofs/FormatImageAbs.v (part 2).
 
    Objects:  Model/Format.v      format_boot_sector_validated o ts  = the sizing code of src/boot_sector.rs
                                  (format_boot_sector) followed by the strict validate step of format_volume,
@@ -210,7 +211,7 @@ Proof. exact image_fat. Qed.
 
 (* data_val / spare_val are Free / EndOfChain below 0x0FFFFFF0, and a FAT12/16 table never reaches that number *)
 Theorem C06_image_fat_values_small : forall x, x < 268435440 -> data_val x = Free /\ spare_val x = Eoc.
-Proof. intros x H. split; [exact (data_val_small x H)|exact (spare_val_small x H)]. Qed.
+Proof. exact fat_values_small. Qed.
 Theorem C06_image_fat1216_small : forall o ts bs t, builder_range o -> ts < 4294967296 ->
   format_boot_sector_validated o ts = Ok (bs, t) -> t <> Format.Fat32 -> sp_fat_entries (fbs_bpb bs) t <= 268435440.
 Proof. exact small_fat_entries. Qed.
